@@ -640,6 +640,9 @@ def check_part(run, jobs=None):
         'composition of the three per-pass theorems with the other passes is the C01 coordinator\'s obligation',
     ]
     run.build_and_audit('MaltModel.Props.C01Jumps', model_files=MODEL_FILES)
+    run.cov['checker_cmd'] = ('cd lean && lake build MaltModel.Props.C01Jumps drv_c01j && lake env lean '
+                              '.lake/audit/Audit_%s.lean' % run.prop +
+                              (' && lake env leanchecker MaltModel.Props.C01Jumps' if run.tier == 'thorough' else ''))
 
     info = {}
     if jobs is None:
